@@ -85,4 +85,33 @@ META = {
         "level_text": "Runtime monitor over two-run histories of the real Check (original run, re-run with the printed seed), in-process and across processes.",
         "technique": "two-run history monitor: parse printed seed from TB output, re-run, compare invocation logs; cross-process digests",
     },
+    "C09": {
+        "level": "exploration",
+        "evaluations": ["checks_run"],
+        "required": ["verdict_pass", "verdict_only_generated", "family:failfiles", "family:failing", "family:realT"],
+        "show": ["checks_run", "verdict_pass", "verdict_only_generated", "invocations"],
+        "rule": "never-failing properties with skip pattern sigma in {never, always, every j-th, data-dependent 5-95%, 9 of 10} x -rapid.checks N in "
+                "{1,2,3,5,17,100,1000}: count completed/skipped invocations by stream kind against TB verdict (exactly N completed then stop, or "
+                "exactly 10N skipped and an 'only generated' failure with FailNow); planted passing/invalid fail files must be replayed first, exactly once each; "
+                "failing programs: no fresh random case after the falsified one, one recording run with the same draws, FailNow last; real *testing.T "
+                "sub-tests: statement after a failed Check must not run; non-trivial+distinct = distinct (N, sigma, #fail files, verdict) cells and failing programs",
+        "assumptions": COMMON_ASSUME,
+        "level_text": "Runtime counting monitor over the real Check loop: every property invocation is counted by stream kind and matched with the TB verdict.",
+        "technique": "invocation-counting monitor (conservation: N completed or 10N skipped) over recording fake TB and real *testing.T sub-tests",
+    },
+    "C11": {
+        "level": "exploration",
+        "evaluations": ["checks_run"],
+        "required": ["runs_with_failure", "family:forced", "family:random", "verbose_runs"],
+        "show": ["checks_run", "runs_with_failure", "cases", "verbose_runs"],
+        "rule": "per-case behaviour is a function of the case's first draw: all 4^3 orders of {Errorf, Skip, cleanup-time Errorf, pass} and all ordered "
+                "pairs of 11 behaviours are forced onto consecutive cases (dry run with the same seed yields each case's first draw), plus random "
+                "sequences; oracle: findBug stops at the first case that signalled, the reproduction run has that case's draws, no 'flaky', no cleanup "
+                "runs after a later case began, every case starts with a live context and clear failure flag, verbose draw labels restart at #0 per case; "
+                "non-trivial+distinct = distinct behaviour sequences (up to the falsified case) observed",
+        "assumptions": COMMON_ASSUME,
+        "level_text": "Runtime monitor of case-to-case isolation on the T that findBug reuses; forced orders are inconclusive (never held) when steering fails.",
+        "technique": "history monitor over per-case behaviours steered by a same-seed dry run; attribution oracle (falsified case = reproduced case)",
+        "max_inconclusive": 0.05,
+    },
 }
